@@ -38,11 +38,12 @@ end
 /-- an ancestor as the code sees it through `.parent`: symbol, `children`, `sources` -/
 structure Frame where
   sym : String
+  ro : Bool
   kids : List GTree
   srcs : List GTree
   deriving Repr
 
-def Frame.tree (f : Frame) : GTree := .node f.sym false f.kids f.srcs
+def Frame.tree (f : Frame) : GTree := .node f.sym f.ro f.kids f.srcs
 
 /-- symbols from the root down to the nearest ancestor (`get_path`); the context is nearest-first -/
 def ctxSyms (ctx : List Frame) : List String := (ctx.map (·.sym)).reverse
@@ -248,7 +249,7 @@ def replaceG (E : Env) (repl : Repl) : Nat → List Frame → List Nat → GTree
       .ok ⟨.leaf v rr, log, [(ctxSyms ctx, .leaf v rr)]⟩
     | some (.node s rr ks _) =>
       -- `deepcopy(copy_children=True, copy_params=False)`: the copy has no sources of its own, its children keep theirs
-      match replaceL E repl f (⟨s, ks, []⟩ :: ctx) path 0 0 ks log with
+      match replaceL E repl f (⟨s, rr, ks, []⟩ :: ctx) path 0 0 ks log with
       | .error e => .error e
       | .ok o =>
         match populateSources E f (ctxSyms ctx) (.node s rr o.trees []) o.log with
@@ -258,7 +259,7 @@ def replaceG (E : Env) (repl : Repl) : Nat → List Frame → List Nat → GTree
       match t with
       | .leaf v r => .ok ⟨.leaf v r, log, []⟩
       | .node s r kids srcs =>
-        let fr : Frame := ⟨s, kids, srcs⟩
+        let fr : Frame := ⟨s, r, kids, srcs⟩
         match replaceL E repl f (fr :: ctx) path 1 0 srcs log with
         | .error e => .error e
         | .ok os =>
